@@ -158,6 +158,21 @@ def eval (c : Cfg) (row : Row) : Expr → Option Val
   | .isNull a negate => (eval c row a).map fun x => .bool (x.isNull != negate)
   | .inList a vs => (eval c row a).map fun x => sqlIn x vs
 
+/-- the row loop of PythonExecutor._subquery_comparison over the subquery's first column:
+    `result = compare(value, row[0])`; None sets saw_null; `bool(result) is is_any` returns early -/
+def subqLoop (compare : Val → Val → Val) (isAny : Bool) (v : Val) : List Val → Bool → Val
+  | [], sawNull => if sawNull then .null else .bool (!isAny)
+  | x :: xs, sawNull =>
+    if compare v x = .null then subqLoop compare isAny v xs true
+    else if truthy (compare v x) = isAny then .bool isAny
+    else subqLoop compare isAny v xs sawNull
+
+/-- PythonExecutor._subquery_comparison(value, …, op, quantifier): `compare = self.env[op]`, `is_any = quantifier == "ANY"` -/
+def subqueryComparison (c : Cfg) (op quantifier : String) (v : Val) (xs : List Val) : Option Val :=
+  match lookup op c.cmpOps with
+  | some o => some (subqLoop (nullIfAny2 (pyCmp o)) (quantifier == "ANY") v xs false)
+  | none => none
+
 /-- env.filter_nulls(func, empty_null) -/
 def filterNulls (f : List Val → Val) (emptyNull : Bool) (vs : List Val) : Val :=
   let filtered := vs.filter (!·.isNull)
@@ -234,9 +249,9 @@ def sortKeyCmp (c : Cfg) : List OrdItem → Row → Row → Ordering
     | some .eq | none => sortKeyCmp c its a b
     | some o => o
 
-/-- list.sort(key=…): a stable sort (core `List.mergeSort` is stable) -/
+/-- list.sort(key=…): a stable sort (`Sem.stableSort`) -/
 def sortRows (c : Cfg) (items : List OrdItem) (rows : List Row) : List Row :=
-  rows.mergeSort fun a b => sortKeyCmp c items a b != .gt
+  stableSort (fun a b => sortKeyCmp c items a b != .gt) rows
 
 /-- PythonExecutor.sort's slice `rows[0 : offset + limit]` followed by _execute's `rows[offset:]` -/
 def sliceLimitOffset (limit : Option Nat) (offset : Nat) (rows : List Row) : List Row :=
@@ -260,7 +275,7 @@ def groupKeyCmp : Key → Key → Ordering
     | o => o
 
 def sortByGroupKey (keyOf : Row → Key) (rows : List Row) : List Row :=
-  rows.mergeSort fun a b => groupKeyCmp (keyOf a) (keyOf b) != .gt
+  stableSort (fun a b => groupKeyCmp (keyOf a) (keyOf b) != .gt) rows
 
 /-! ## python.py: joins -/
 
@@ -400,6 +415,37 @@ def aggregateSorted (c : Cfg) (keyOf : Row → Key) (agg : List Row → Row) (ha
 def aggregate (c : Cfg) (keyOf : Row → Key) (agg : List Row → Row) (hasGroupBy : Bool)
     (cap : Option Nat) (limit : Option Nat) (rows : List Row) : List Row :=
   aggregateSorted c keyOf agg hasGroupBy cap limit (sortByGroupKey keyOf rows)
+
+/-! ## python.py: scan / static / _project_and_filter -/
+
+/-- PythonExecutor._project_and_filter.  `for reader in table_iter:` with
+    `if len(sink) >= step.offset + step.limit: break` (cap = offset + limit, none = inf),
+    `if condition and not context.eval(condition): continue` (Python truthiness),
+    `sink.append(context.eval_tuple(projections))` or `sink.append(reader.row)` without projections. -/
+def projectFilterLoop (cond : Option (Row → Val)) (projs : Option (Row → Row)) (cap : Option Nat) :
+    List Row → List Row → List Row
+  | [], sink => sink
+  | row :: rest, sink =>
+    if capReached cap sink then sink
+    else if !keeps cond row then projectFilterLoop cond projs cap rest sink
+    else projectFilterLoop cond projs cap rest (sink ++ [projRow projs row])
+
+def projectFilter (cond : Option (Row → Val)) (projs : Option (Row → Row)) (cap : Option Nat) (rows : List Row) : List Row :=
+  projectFilterLoop cond projs cap rows []
+
+/-- where a Scan step reads from: `static()` yields one empty row (SELECT without FROM), `scan_table` the table's rows -/
+inductive ScanSource where
+  | static
+  | table (rows : List Row)
+
+/-- PythonExecutor.scan for a leaf Scan step (source not in the context: a base table or nothing) -/
+def scan (src : ScanSource) (cond : Option (Row → Val)) (projs : Option (Row → Row)) (cap : Option Nat) : List Row :=
+  projectFilter cond projs cap (match src with | .static => [[]] | .table rows => rows)
+
+/-- `_execute`: `if node.offset: table.rows = table.rows[node.offset:]` -/
+def applyOffset (offset : Nat) (rows : List Row) : List Row := rows.drop offset
+
+def capOf (limit : Option Nat) (offset : Nat) : Option Nat := limit.map (offset + ·)
 
 /-! ## python.py: set_operation() -/
 
